@@ -213,6 +213,72 @@ proof fn lemma_xor_zero(x: u64, y: u64) by (bit_vector)
     ensures x == y
 {}
 
+
+// ---- weight: Kernighan's loop clears the lowest set bit, so each iteration removes one from cnt ----
+pub open spec fn low_nz(v: u64, n: int) -> bool {
+    if n >= 64 { v != 0 } else if n <= 0 { false } else { (v & (((1u64 << (n as u64)) - 1u64) as u64)) != 0u64 }
+}
+proof fn lemma_kern_same(v: u64, n: u64) by (bit_vector)
+    requires n < 64, v != 0, (v & (((1u64 << n) - 1u64) as u64)) != 0u64
+    ensures (((v & ((v - 1u64) as u64)) >> n) & 1u64) == ((v >> n) & 1u64)
+{}
+proof fn lemma_kern_clear(v: u64, n: u64) by (bit_vector)
+    requires n < 64, v != 0, (v & (((1u64 << n) - 1u64) as u64)) == 0u64
+    ensures (((v & ((v - 1u64) as u64)) >> n) & 1u64) == 0u64
+{}
+proof fn lemma_low_nz_step(v: u64, n: u64) by (bit_vector)
+    requires n < 63
+    ensures ((v & (((1u64 << ((n + 1) as u64)) - 1u64) as u64)) != 0u64)
+        == (((v & (((1u64 << n) - 1u64) as u64)) != 0u64) || ((v >> n) & 1u64) == 1u64)
+{}
+proof fn lemma_low_nz_last(v: u64) by (bit_vector)
+    ensures (v != 0u64) == (((v & (((1u64 << 63u64) - 1u64) as u64)) != 0u64) || ((v >> 63u64) & 1u64) == 1u64)
+{}
+proof fn lemma_low_nz_zero(v: u64) by (bit_vector)
+    ensures (v & (((1u64 << 0u64) - 1u64) as u64)) == 0u64
+{}
+proof fn lemma_kern_lt(v: usize) by (bit_vector)
+    requires v > 0
+    ensures (v & ((v - 1) as usize)) < v
+{}
+proof fn lemma_kern_cast(v: usize) by (bit_vector)
+    requires v > 0
+    ensures ((v & ((v - 1) as usize)) as u64) == ((v as u64) & (((v as u64) - 1u64) as u64))
+{}
+proof fn lemma_kern_cnt(v: u64, n: nat)
+    requires v != 0, n <= 64
+    ensures cnt((v & ((v - 1u64) as u64)), n) + (if low_nz(v, n as int) { 1nat } else { 0nat }) == cnt(v, n)
+    decreases n
+{
+    let w = v & ((v - 1u64) as u64);
+    if n == 0 {
+    } else {
+        let m = (n - 1) as nat;
+        lemma_kern_cnt(v, m);
+        lemma_bit01(v, m as u64); lemma_bit01(w, m as u64);
+        if m == 0 { lemma_low_nz_zero(v); }
+        if m < 63 { lemma_low_nz_step(v, m as u64); } else { lemma_low_nz_last(v); }
+        if low_nz(v, m as int) {
+            lemma_kern_same(v, m as u64);
+        } else {
+            lemma_kern_clear(v, m as u64);
+        }
+    }
+}
+proof fn lemma_cnt_bound(v: u64, n: nat)
+    ensures cnt(v, n) <= n
+    decreases n
+{ if n > 0 { lemma_cnt_bound(v, (n - 1) as nat); } }
+proof fn lemma_cnt_zero(n: nat)
+    ensures cnt(0u64, n) == 0
+    decreases n
+{ if n > 0 { lemma_cnt_zero((n - 1) as nat); if n <= 64 { lemma_zero_bit((n - 1) as u64); } } }
+
+// std contract assumed (TRUSTED): Ordering::then_with runs the closure exactly when self is Equal
+pub assume_specification<F: FnOnce() -> core::cmp::Ordering>[ core::cmp::Ordering::then_with ](o: core::cmp::Ordering, f: F) -> (r: core::cmp::Ordering)
+    requires o == core::cmp::Ordering::Equal ==> f.requires(()),
+    ensures o != core::cmp::Ordering::Equal ==> r == o, o == core::cmp::Ordering::Equal ==> f.ensures((), r);
+
 /// two words with the same 64 bits are equal
 proof fn lemma_ext(x: u64, y: u64)
     requires forall|j: int| 0 <= j < 64 ==> bit(x, j) == bit(y, j)
@@ -587,6 +653,36 @@ impl BitSeq {
     //@|     }
     //@| }
 
+    pub fn weight(&self) -> (r: usize)
+        ensures r == cnt(self.val, 64), r <= 64,
+    //@body impl/BitSeq/weight
+    //@+ sig
+    //@| fn weight(&self) -> usize
+    //@+ loop 0
+    //@| invariant c + cnt(v as u64, 64) == cnt(self.val, 64), c <= 64,
+    //@| decreases v,
+    //@+ loop 0 begin
+    //@| lemma_kern_lt(v); lemma_kern_cast(v); lemma_kern_cnt(v as u64, 64); lemma_cnt_bound(self.val, 64);
+    //@+ post
+    //@| lemma_cnt_zero(64);
+
+    pub fn cmp(&self, other: &BitSeq) -> (r: core::cmp::Ordering)
+        ensures
+            r == core::cmp::Ordering::Less <==> (key_le(*self, *other) && *self != *other),
+            r == core::cmp::Ordering::Equal <==> *self == *other,
+            r == core::cmp::Ordering::Greater <==> (key_le(*other, *self) && *self != *other),
+    //@body impl/Ord@BitSeq/cmp
+    //@+ sig
+    //@| fn cmp(&self, other: &Self) -> std::cmp::Ordering
+    //@+ closure 0
+    //@| -> (r1: core::cmp::Ordering) ensures
+    //@|     r1 == core::cmp::Ordering::Less <==> cnt(self.val, 64) < cnt(other.val, 64),
+    //@|     r1 == core::cmp::Ordering::Equal <==> cnt(self.val, 64) == cnt(other.val, 64),
+    //@+ closure 1
+    //@| -> (r2: core::cmp::Ordering) ensures
+    //@|     r2 == core::cmp::Ordering::Less <==> self.val < other.val,
+    //@|     r2 == core::cmp::Ordering::Equal <==> self.val == other.val,
+
     pub fn index(&self, i: usize) -> (r: &Bit)
         requires self.wf(),
 //@if B
@@ -606,8 +702,8 @@ pub open spec fn val_mask_of(n: usize) -> u64 {
 }
 
 // ---------------------------------------------------------------- order (specification level)
-// `Ord::cmp` itself is closure-based (then_with) and is decided by the Kani harness
-// bitseq_cmp against this key; here: the key order is a total order consistent with ==.
+// `Ord::cmp` is proved above against this key (len, then weight, then value); here: the key
+// order is a total order consistent with ==.
 pub open spec fn key_le(a: BitSeq, b: BitSeq) -> bool {
     a.len < b.len || (a.len == b.len && (cnt(a.val, 64) < cnt(b.val, 64) || (cnt(a.val, 64) == cnt(b.val, 64) && a.val <= b.val)))
 }
